@@ -233,3 +233,101 @@ func roleSearch(a hx.Args, rng *hx.Rng, res *hx.Result) {
 		res.Count(class, "role|"+string(bj), true)
 	}
 }
+
+// ---------------------------------------------------------------------------------------------
+// L13 node role. Node-local configuration (full node vs miner node: common.IsFullNode, set from the node's
+// start-up flags) is not part of the chain: the same block must give the same outcome on both kinds of
+// node. Blocks hold registry operations that depend on each other inside ONE block (two applications
+// naming the same account, apply then refund / add / change-account of the same miner), because what
+// such a role switch typically changes is WHEN intermediate state becomes visible.
+type roleFlag struct {
+	name string
+	set  func(on bool)
+}
+
+var roleFlags = []roleFlag{
+	{"full-node", func(on bool) { common.SetFullNode(on) }},
+}
+
+func registryBlock(r *hx.Rng, i int) blockCase {
+	var bc blockCase
+	acct := addr(36 + r.Intn(3))
+	idA, idB := idOf(byte(0xb0+i%16)), idOf(byte(0xc0+i%16))
+	apply := func(id []byte, src common.Address, account []byte, typ byte) txDesc {
+		stake := common.ValidatorStake * 2
+		if typ == common.MinerTypeProposer {
+			stake = common.ProposerStake
+		}
+		m := types.Miner{Id: id, PublicKey: []byte{3, byte(i)}, VrfPublicKey: []byte{2}, Type: typ, Stake: stake, Account: account}
+		md, _ := json.Marshal(m)
+		return txDesc{Type: types.TransactionTypeMinerApply, Source: addrHex(src), Data: string(md)}
+	}
+	typ := []byte{common.MinerTypeValidator, common.MinerTypeProposer}[r.Intn(2)]
+	switch i % 4 {
+	case 0: // two applications naming the same account, different senders
+		bc.Txs = append(bc.Txs, apply(idA, addr(20), acct.Bytes(), typ), apply(idB, addr(21), acct.Bytes(), typ))
+	case 1: // the same sender applies twice (account = sender when none is named)
+		bc.Txs = append(bc.Txs, apply(idA, addr(22), nil, typ), apply(idB, addr(22), nil, typ))
+	case 2: // apply, then add stake and refund of the new miner in the same block
+		bc.Txs = append(bc.Txs, apply(idA, addr(23), nil, typ))
+		m := types.Miner{Id: idA, Stake: 300}
+		md, _ := json.Marshal(m)
+		bc.Txs = append(bc.Txs, txDesc{Type: types.TransactionTypeMinerAdd, Source: addrHex(addr(24)), Data: string(md)})
+		rd, _ := json.Marshal(map[string]string{"Amount": "100", "MinerId": common.ToHex(idA)})
+		bc.Txs = append(bc.Txs, txDesc{Type: types.TransactionTypeMinerRefund, Source: addrHex(addr(23)), Data: string(rd), Signed: true})
+	default: // apply, change account, then a second application naming the account just left / just taken
+		bc.Txs = append(bc.Txs, apply(idA, addr(20), nil, typ))
+		m := types.Miner{Id: idA, Account: acct.Bytes()}
+		md, _ := json.Marshal(m)
+		bc.Txs = append(bc.Txs, txDesc{Type: types.TransactionTypeMinerChangeAccount, Source: addrHex(addr(20)), Data: string(md)})
+		bc.Txs = append(bc.Txs, apply(idB, addr(21), [][]byte{acct.Bytes(), addr(20).Bytes()}[r.Intn(2)], typ))
+	}
+	if r.Intn(2) == 0 {
+		bc.Txs = append(bc.Txs, genBlock(r).Txs...)
+	}
+	for j := range bc.Txs {
+		bc.Txs[j].RequestId = uint64(800 + j)
+		bc.Txs[j].Nonce = uint64(j)
+	}
+	return bc
+}
+
+func nodeRoleSearch(a hx.Args, rng *hx.Rng, res *hx.Result) {
+	n := 16
+	if a.Tier == "thorough" {
+		n = 120
+	}
+	for i := 0; i < n; i++ {
+		b := registryBlock(rng, i)
+		ref, _, pan := runBlockX(blockWorld, b, blockHeight, "fullverify", &ctlChain{})
+		if pan != nil {
+			res.Violate("C01/panic:block", fmt.Sprint(pan), b)
+			continue
+		}
+		class := "node-role:same-outcome"
+		for _, f := range roleFlags {
+			f.set(true)
+			o, _, pan := runBlockX(blockWorld, b, blockHeight, "fullverify", &ctlChain{})
+			f.set(false)
+			if pan != nil {
+				res.Violate("C01/node-role:"+f.name, "the block panics on a node with "+f.name+" set: "+fmt.Sprint(pan), b)
+				continue
+			}
+			if d := diffFields(ref, o); d != "" {
+				class = "node-role-DEPENDENT"
+				res.Violate("C01/node-role:"+f.name,
+					fmt.Sprintf("the same block on the same parent state gives a different %s on a node configured with %s than on one without; without: %s  VS  with: %s", d, f.name, ref.digest(), o.digest()),
+					map[string]interface{}{"block": b, "height": blockHeight, "flag": f.name})
+			}
+		}
+		okN := 0
+		for _, rc := range ref.Receipts {
+			if p := strings.SplitN(rc, "|", 3); len(p) >= 2 && p[1] == "1" {
+				okN++
+			}
+		}
+		res.Histogram["node-role:successful-receipts"] += okN
+		bj, _ := json.Marshal(b)
+		res.Count(class, "role-flag|"+string(bj), true)
+	}
+}
